@@ -24,27 +24,39 @@ Inductive rkind := KVal (v : Z) | KExc (e : Z) | KDrop.
 Record cfg := mkCfg {
   c_ad : adapter;
   c_mode : nat;        (* 0..3 *)
-  c_stor : bool;       (* helper block taken from a counting storage instead of the heap *)
+  c_stor : nat;        (* helper block: 0 heap, 1 counting storage, 2 reusable_storage, 3 second of two trailer-tagged
+                          counting storages, 4 reusable_storage_mtsafe *)
   c_k : rkind;
-  c_cthrow : bool;     (* converter throws test_exc{c_cd} instead of returning src + c_cd *)
+  c_k2 : option rkind; (* a competing resolver on thread 2 (value / exception / p(drop)) *)
+  c_cb : nat;          (* converter behaviour on a value: 0 delivers src + c_cd, 1 throws test_exc{c_cd}, 2 resolves the
+                          promise with that exception itself, 3 declines (returns without touching the promise), 4 moves
+                          the promise to a holder from which thread 2 resolves it later with src + c_cd
+                          (2-4 need the promise-passing form of future_conv) *)
   c_cd : Z
 }.
 
 Inductive instr :=
 | IPriv (code : Z)      (* a hook point on a thread-private promise object (claim of / ~promise on an empty or
                            not yet shared promise): no effect on shared state *)
-| IPark                 (* "claim" inside promise's move constructor while the init function parks the source
-                           promise where the resolver finds it; the rest of the step completes the parking *)
+| IPark (code : Z)      (* "claim" inside promise's move constructor while the init function parks the source
+                           promise where the resolver finds it; the rest of the step completes the parking
+                           (make_promise into a reusable_storage_mtsafe: the step after "busy_g") *)
+| IRel                  (* reusable_storage_mtsafe::dealloc at "busy_s": the step clears the busy flag  coro_storage.h:174-182 *)
 | IXWait                (* resolver thread: waits until the promise has been parked *)
-| IClaim                (* promise::claim  future.h:698-701, then set  future.h:644-648 *)
+| IClaim (who : nat)     (* promise::claim  future.h:698-701, then set  future.h:644-648 (p(drop): no set, future.h:657-663);
+                           who = 0 inside the init function, 1 the primary resolver, 2 the competing resolver *)
 | IDtorP                (* ~promise  future.h:601-606 (drop) *)
 | IResolve              (* future::resolve -> resume_chain_set_ready  awaiter.h:96-101 *)
 | IWalk                 (* resume_chain_lk, one node  awaiter.h:102-112 *)
 | IReady                (* co_awaiter::await_ready -> future::ready  future.h:159-162 *)
 | ISub (retry : bool)   (* subscribe_check_ready  awaiter.h:121-136 *)
 | ICvClaim              (* future_conv resume function: promise<To> p = std::move(_prom)  future_conv.h:63 *)
-| ICvReady (got : bool) (* *_fut -> wait() -> await_ready  future_conv.h:66-69, then the converter *)
-| ICvSet (got : bool) (r : outcome)   (* p(result) / p(current_exception): claim + set  future_conv.h:69,72 *)
+| ICvReady              (* *_fut -> wait() -> await_ready  future_conv.h:66-69, then the converter *)
+| ICvSet (r : outcome)  (* p(result) / p(current_exception): claim + set  future_conv.h:69,72 *)
+| ICvPark (r : outcome) (* promise-passing converter moves p to a holder ("claim" in the move constructor) *)
+| ICvDtor               (* ~p at the end of the resume function: a promise that is still held is dropped  future.h:601-606 *)
+| IOWait                (* thread 2: waits until the converter has parked the outer promise (or the outer future is ready) *)
+| IOClaim               (* thread 2: held(result): claim + set *)
 | ICvResolve            (* resolve of the outer future *)
 | ICvWalk               (* outer chain walk: the outer consumer's callback *)
 | IOReady               (* outer consumer: await_ready on the outer future *)
@@ -66,11 +78,17 @@ Record st := mkSt {
   oprom : bool;          (* the outer promise is held by the registration (init parameter, then future_conv::_prom) *)
   oslot : slotv;
   opayload : outcome;
+  pheld : bool;          (* the local promise p of the running resume function holds the outer promise *)
+  oheld : option outcome;(* the converter's holder has the outer promise, to be resolved with this result *)
   allocs : nat;          (* helper blocks obtained (heap or storage) *)
   frees : nat;           (* helper blocks released *)
   th0 : list instr;
   th1 : list instr;
+  th2 : list instr;
   clk : nat;
+  ret1 : option bool;    (* what the primary / the competing resolver's call returned *)
+  ret2 : option bool;
+  won : nat;             (* ghost: 0 nobody has claimed yet, 1 the primary promise holder, 2 the competitor *)
   (* ghost history *)
   nfire : nat;           (* completions of the adapter's awaiter node started *)
   nconv : nat;           (* converter invocations *)
@@ -80,40 +98,60 @@ Record st := mkSt {
 }.
 
 Definition thr (s : st) (i : nat) : list instr :=
-  match i with O => th0 s | S O => th1 s | _ => [] end.
+  match i with O => th0 s | S O => th1 s | S (S O) => th2 s | _ => [] end.
 
 Definition set_thr (s : st) (i : nat) (l : list instr) : st :=
   match i with
-  | O => mkSt (owner s) (parked s) (slot s) (payload s) (oprom s) (oslot s) (opayload s) (allocs s) (frees s)
-              l (th1 s) (clk s) (nfire s) (nconv s) (ndeliv s) (nores s) (log s)
-  | S O => mkSt (owner s) (parked s) (slot s) (payload s) (oprom s) (oslot s) (opayload s) (allocs s) (frees s)
-              (th0 s) l (clk s) (nfire s) (nconv s) (ndeliv s) (nores s) (log s)
+  | O => mkSt (owner s) (parked s) (slot s) (payload s) (oprom s) (oslot s) (opayload s) (pheld s) (oheld s) (allocs s) (frees s)
+              l (th1 s) (th2 s) (clk s) (ret1 s) (ret2 s) (won s) (nfire s) (nconv s) (ndeliv s) (nores s) (log s)
+  | S O => mkSt (owner s) (parked s) (slot s) (payload s) (oprom s) (oslot s) (opayload s) (pheld s) (oheld s) (allocs s) (frees s)
+              (th0 s) l (th2 s) (clk s) (ret1 s) (ret2 s) (won s) (nfire s) (nconv s) (ndeliv s) (nores s) (log s)
+  | S (S O) => mkSt (owner s) (parked s) (slot s) (payload s) (oprom s) (oslot s) (opayload s) (pheld s) (oheld s) (allocs s) (frees s)
+              (th0 s) (th1 s) l (clk s) (ret1 s) (ret2 s) (won s) (nfire s) (nconv s) (ndeliv s) (nores s) (log s)
   | _ => s
   end.
 
 Definition push (s : st) (i : nat) (l : list instr) : st := set_thr s i (l ++ thr s i).
 
 Definition tick (s : st) : st :=
-  mkSt (owner s) (parked s) (slot s) (payload s) (oprom s) (oslot s) (opayload s) (allocs s) (frees s)
-       (th0 s) (th1 s) (S (clk s)) (nfire s) (nconv s) (ndeliv s) (nores s) (log s).
+  mkSt (owner s) (parked s) (slot s) (payload s) (oprom s) (oslot s) (opayload s) (pheld s) (oheld s) (allocs s) (frees s)
+       (th0 s) (th1 s) (th2 s) (S (clk s)) (ret1 s) (ret2 s) (won s) (nfire s) (nconv s) (ndeliv s) (nores s) (log s).
 
 (* source cell updates *)
 Definition set_src (s : st) (o pk : bool) (sl : slotv) (p : outcome) : st :=
-  mkSt o pk sl p (oprom s) (oslot s) (opayload s) (allocs s) (frees s)
-       (th0 s) (th1 s) (clk s) (nfire s) (nconv s) (ndeliv s) (nores s) (log s).
+  mkSt o pk sl p (oprom s) (oslot s) (opayload s) (pheld s) (oheld s) (allocs s) (frees s)
+       (th0 s) (th1 s) (th2 s) (clk s) (ret1 s) (ret2 s) (won s) (nfire s) (nconv s) (ndeliv s) (nores s) (log s).
 (* outer cell updates *)
 Definition set_out (s : st) (op : bool) (sl : slotv) (p : outcome) (nr : nat) : st :=
-  mkSt (owner s) (parked s) (slot s) (payload s) op sl p (allocs s) (frees s)
-       (th0 s) (th1 s) (clk s) (nfire s) (nconv s) (ndeliv s) nr (log s).
+  mkSt (owner s) (parked s) (slot s) (payload s) op sl p (pheld s) (oheld s) (allocs s) (frees s)
+       (th0 s) (th1 s) (th2 s) (clk s) (ret1 s) (ret2 s) (won s) (nfire s) (nconv s) (ndeliv s) nr (log s).
+Definition set_held (s : st) (ph : bool) (oh : option outcome) : st :=
+  mkSt (owner s) (parked s) (slot s) (payload s) (oprom s) (oslot s) (opayload s) ph oh (allocs s) (frees s)
+       (th0 s) (th1 s) (th2 s) (clk s) (ret1 s) (ret2 s) (won s) (nfire s) (nconv s) (ndeliv s) (nores s) (log s).
 Definition add_log (s : st) (l : list ev) : st :=
-  mkSt (owner s) (parked s) (slot s) (payload s) (oprom s) (oslot s) (opayload s) (allocs s) (frees s)
-       (th0 s) (th1 s) (clk s) (nfire s) (nconv s) (ndeliv s) (nores s) (log s ++ map (fun e => (clk s, e)) l).
+  mkSt (owner s) (parked s) (slot s) (payload s) (oprom s) (oslot s) (opayload s) (pheld s) (oheld s) (allocs s) (frees s)
+       (th0 s) (th1 s) (th2 s) (clk s) (ret1 s) (ret2 s) (won s) (nfire s) (nconv s) (ndeliv s) (nores s)
+       (log s ++ map (fun e => (clk s, e)) l).
 Definition set_cnt (s : st) (fr nf nc nd : nat) : st :=
-  mkSt (owner s) (parked s) (slot s) (payload s) (oprom s) (oslot s) (opayload s) (allocs s) fr
-       (th0 s) (th1 s) (clk s) nf nc nd (nores s) (log s).
+  mkSt (owner s) (parked s) (slot s) (payload s) (oprom s) (oslot s) (opayload s) (pheld s) (oheld s) (allocs s) fr
+       (th0 s) (th1 s) (th2 s) (clk s) (ret1 s) (ret2 s) (won s) nf nc nd (nores s) (log s).
+(* a resolver's call returns b (who = 0: inside the init function, nothing is recorded); w: the new ghost winner *)
+Definition set_ret (s : st) (who : nat) (b : bool) (w : nat) : st :=
+  mkSt (owner s) (parked s) (slot s) (payload s) (oprom s) (oslot s) (opayload s) (pheld s) (oheld s) (allocs s) (frees s)
+       (th0 s) (th1 s) (th2 s) (clk s)
+       (match who with S O => Some b | _ => ret1 s end) (match who with S (S O) => Some b | _ => ret2 s end)
+       w (nfire s) (nconv s) (ndeliv s) (nores s) (log s).
 
 Definition out_of (k : rkind) : outcome :=
   match k with KVal v => OVal v | KExc e => OExc e | KDrop => ONone end.
+
+(* the kind a claim of `who` delivers *)
+Definition kind_of (c : cfg) (who : nat) : rkind :=
+  match who with
+  | S (S O) => match c_k2 c with Some k => k | None => KDrop end
+  | _ => c_k c
+  end.
+Definition has_sd (st : nat) : bool := match st with 1%nat | 3%nat => true | _ => false end.
 
 Definition has_helper (a : adapter) : bool := match a with ACbAwait | AMkProm | ADiscard => true | _ => false end.
 Definition has_functor (a : adapter) : bool := match a with ACbAwait | AMkProm => true | _ => false end.
@@ -124,7 +162,11 @@ Definition has_cb (a : adapter) : bool := match a with ACbAwait | AMkProm | ACal
    or await_canceled_exception for a broken promise) *)
 Definition conv_result (c : cfg) (p : outcome) : outcome :=
   match p with
-  | OVal v => if c_cthrow c then OExc (c_cd c) else OVal (v + c_cd c)
+  | OVal v => match c_cb c with
+              | 1%nat | 2%nat => OExc (c_cd c)
+              | 3%nat => ONone                 (* declined: the outer promise is dropped, a broken promise *)
+              | _ => OVal (v + c_cd c)         (* 0 at once; 4 later, by thread 2 *)
+              end
   | OExc e => OExc e
   | ONone => OCanc
   | OCanc => OCanc
@@ -135,7 +177,7 @@ Definition conv_result (c : cfg) (p : outcome) : outcome :=
 Definition fire (c : cfg) (s : st) (i : nat) : st :=
   let s1 := set_cnt s (frees s) (S (nfire s)) (nconv s) (ndeliv s) in
   match c_ad c with
-  | AConv => push s1 i [ICvClaim; IPriv 2]           (* future_conv.h:60-74: four more hook points follow *)
+  | AConv => push s1 i [ICvClaim]                    (* future_conv.h:60-74: the resume function's hook points follow *)
   | ACallFn =>                                       (* future.h:1056-1060: owner.fn(_fut) *)
       add_log s1 [ECb (payload s) (allocs s) (frees s); ECbRet (allocs s) (frees s)]
   | ADiscard =>                                      (* future.h:978-982: delete _this *)
@@ -144,8 +186,10 @@ Definition fire (c : cfg) (s : st) (i : nat) : st :=
       (* callback_awaiter.h:72-81 then final_suspend destroys the frame (async.h:217-230);
          future.h:884-888 _fn( *_this ); delete _this *)
       let s2 := add_log s1 ([ECb (payload s) (allocs s) (frees s); ECbRet (allocs s) (frees s);
-                             EFun (allocs s) (frees s)] ++ (if c_stor c then [ESd] else [])) in
-      set_cnt s2 (S (frees s)) (nfire s1) (nconv s) (ndeliv s)
+                             EFun (allocs s) (frees s)] ++ (if has_sd (c_stor c) then [ESd] else [])) in
+      (* the block goes back: operator delete / Storage::dealloc; the mtsafe storage has a hook point inside dealloc *)
+      if Nat.eqb (c_stor c) 4 then push s2 i [IRel]
+      else set_cnt s2 (S (frees s)) (nfire s1) (nconv s) (ndeliv s)
   end.
 
 Definition deliver (s : st) : st :=
@@ -156,13 +200,16 @@ Definition deliver (s : st) : st :=
 Definition exec (c : cfg) (s : st) (i : nat) (ins : instr) : st * Z :=
   match ins with
   | IPriv code => (s, code)
-  | IPark => (set_src s (owner s) true (slot s) (payload s), 1)
+  | IPark code => (set_src s (owner s) true (slot s) (payload s), code)
+  | IRel => (set_cnt s (S (frees s)) (nfire s) (nconv s) (ndeliv s), 41)
   | IXWait => (s, 9)
-  | IClaim =>
-      if owner s then (push (set_src s false (parked s) (slot s) (out_of (c_k c))) i [IResolve], 1)
-      else (s, 1)
+  | IClaim who =>
+      if owner s then
+        (push (set_ret (set_src s false (parked s) (slot s) (out_of (kind_of c who))) who true
+                       (match who with S (S O) => 2%nat | _ => 1%nat end)) i [IResolve], 1)
+      else (set_ret s who false (won s), 1)       (* lost the race: returns false, nothing else changes *)
   | IDtorP =>
-      if owner s then (push (set_src s false (parked s) (slot s) (payload s)) i [IResolve], 2)
+      if owner s then (push (set_ret (set_src s false (parked s) (slot s) (payload s)) 0 true 1%nat) i [IResolve], 2)
       else (s, 2)
   | IResolve =>
       let s1 := set_src s (owner s) (parked s) SReady (payload s) in
@@ -176,20 +223,40 @@ Definition exec (c : cfg) (s : st) (i : nat) (ins : instr) : st * Z :=
        | SEmpty => set_src s (owner s) (parked s) SSub (payload s)    (* subscribed *)
        | SSub => push s i [ISub true]                                 (* CAS failed, not ready: retry *)
        end, if r then 7 else 6)
-  | ICvClaim => (push (set_out s false (oslot s) (opayload s) (nores s)) i [ICvReady (oprom s)], 1)
-  | ICvReady g =>
+  | ICvClaim =>       (* promise<To> p = std::move(_prom) *)
+      (push (set_held (set_out s false (oslot s) (opayload s) (nores s)) (oprom s) (oheld s)) i [ICvReady], 1)
+  | ICvReady =>
       match slot s with
       | SReady =>
           let r := conv_result c (payload s) in
-          let s1 := match payload s with
-                    | OVal v => add_log (set_cnt s (frees s) (nfire s) (S (nconv s)) (ndeliv s)) [EConv v r]
-                    | _ => s
-                    end in
-          (push s1 i [ICvSet g r], 5)
-      | _ => (push s i [ICvReady g], 5)     (* would block in sync(); not reachable *)
+          match payload s with
+          | OVal v =>
+              (* the converter runs; what it does with the promise is its behaviour *)
+              let s1 := add_log (set_cnt s (frees s) (nfire s) (S (nconv s)) (ndeliv s)) [EConv v r] in
+              (push s1 i (match c_cb c with
+                          | 3%nat => [ICvDtor]                 (* declines: nothing but the end of the resume function *)
+                          | 4%nat => [ICvPark r]               (* moves the promise away *)
+                          | _ => [ICvSet r]                    (* p(value) / throws -> catch: p(current_exception) / p(exception) *)
+                          end), 5)
+          | _ => (push s i [ICvSet r], 5)                      (* *_fut rethrows -> catch: p(current_exception) *)
+          end
+      | _ => (push s i [ICvReady], 5)     (* would block in sync(); not reachable *)
       end
-  | ICvSet g r =>
-      if g then (push (set_out s (oprom s) (oslot s) r (nores s)) i [ICvResolve], 1) else (s, 1)
+  | ICvSet r =>
+      (* claim on p, set, resolve, then ~p *)
+      if pheld s then (push (set_held (set_out s (oprom s) (oslot s) r (nores s)) false (oheld s)) i [ICvResolve; ICvDtor], 1)
+      else (push s i [ICvDtor], 1)
+  | ICvPark r =>
+      if pheld s then (push (set_held s false (Some r)) i [ICvDtor], 1) else (push s i [ICvDtor], 1)
+  | ICvDtor =>
+      (* ~promise: a promise that nobody consumed resolves the outer future without a value *)
+      if pheld s then (push (set_held s false (oheld s)) i [ICvResolve], 2) else (s, 2)
+  | IOWait => (match oheld s with Some _ => push s i [IOClaim] | None => s end, 9)
+  | IOClaim =>
+      match oheld s with
+      | Some r => (push (set_held (set_out s (oprom s) (oslot s) r (nores s)) (pheld s) None) i [ICvResolve], 1)
+      | None => (s, 1)
+      end
   | ICvResolve =>
       let s1 := set_out s (oprom s) SReady (opayload s) (S (nores s)) in
       (match oslot s with SSub => push s1 i [ICvWalk] | _ => s1 end, 3)
@@ -208,6 +275,7 @@ Definition enabled (s : st) (i : nat) : bool :=
   match thr s i with
   | [] => false
   | IXWait :: _ => parked s
+  | IOWait :: _ => match oheld s with Some _ => true | None => match oslot s with SReady => true | _ => false end end
   | _ => true
   end.
 
@@ -221,15 +289,21 @@ Definition tstep (c : cfg) (s : st) (i : nat) : st * Z :=
 Definition mk_prog (c : cfg) : list instr :=
   match c_mode c with
   | O => []
-  | S O => match c_k c with KDrop => [IDtorP] | _ => [IClaim; IPriv 2] end
-  | _ => [IPark; IPriv 2]
+  | S O => match c_k c with KDrop => [IDtorP] | _ => [IClaim 0; IPriv 2] end
+  | _ => [IPark 1; IPriv 2]
   end.
+(* the primary resolver: p(v) / p(exception) / a lone drop = ~promise; against a competitor the drop is p(drop),
+   because the promise object has to outlive the competitor's call *)
 Definition res_prog (c : cfg) : list instr :=
-  match c_k c with KDrop => [IDtorP] | _ => [IClaim] end.
+  match c_k c, c_k2 c with KDrop, None => [IDtorP] | _, _ => [IClaim 1] end.
+(* obtaining the helper block from a reusable_storage_mtsafe: "busy_x", "busy_g"  coro_storage.h:156-172 *)
+Definition is_mts (c : cfg) : bool := Nat.eqb (c_stor c) 4.
 Definition reg_prog (c : cfg) : list instr :=
   match c_ad c with
-  | ACbAwait => mk_prog c ++ [IReady]                     (* co_await awt: await_ready, await_suspend *)
-  | AMkProm => []                                         (* no hook point: the chain is pre-seeded (future.h:883) *)
+  | ACbAwait => (if is_mts c then [IPriv 40; IPriv 42] else []) ++ mk_prog c ++ [IReady]
+                                                          (* frame allocation; co_await awt: await_ready, await_suspend *)
+  | AMkProm => if is_mts c then [IPriv 40; IPark 42] else []
+                                                          (* otherwise no hook point: the chain is pre-seeded (future.h:883) *)
   | ADiscard => mk_prog c ++ [ISub false]                 (* future.h:973-975 *)
   | ACallFn => mk_prog c ++ [ISub false]                  (* future.h:1048-1053 *)
   | AConv => [IPriv 1; IPriv 1] ++ mk_prog c ++ [ISub false; IPriv 2; IOReady]
@@ -243,23 +317,27 @@ Definition is_conv (c : cfg) : bool := match c_ad c with AConv => true | _ => fa
 
 Definition init (c : cfg) : st :=
   mkSt (negb (is_mode c 0))
-       (is_mk c)
+       (is_mk c && negb (is_mts c))
        (if is_mk c then SSub else if is_mode c 0 then SReady else SEmpty)
        (if is_mode c 0 then out_of (c_k c) else ONone)
-       (is_conv c) SEmpty ONone
+       (is_conv c) SEmpty ONone false None
        (if has_helper (c_ad c) then 1%nat else 0%nat) 0%nat
        (reg_prog c ++ (if is_mode c 3 then res_prog c else []))
        (if is_mode c 2 then IXWait :: res_prog c else [])
-       0%nat 0%nat 0%nat 0%nat 0%nat [].
+       (match c_k2 c with Some _ => [IXWait; IClaim 2] | None => if is_conv c && Nat.eqb (c_cb c) 4 then [IOWait] else [] end)
+       0%nat None None (if is_mode c 0 then 1%nat else 0%nat) 0%nat 0%nat 0%nat 0%nat [].
 
 Definition valid (c : cfg) : bool :=
   Nat.leb (c_mode c) 3
-  && (negb (c_stor c) || has_functor (c_ad c))
-  && (negb (is_mk c) || Nat.leb 2 (c_mode c)).
+  && Nat.leb (c_stor c) 4
+  && (Nat.eqb (c_stor c) 0 || has_functor (c_ad c))
+  && (negb (is_mk c) || Nat.leb 2 (c_mode c))
+  && (match c_k2 c with Some _ => is_mode c 2 && negb (Nat.eqb (c_cb c) 4) | None => true end)
+  && Nat.leb (c_cb c) 4.
 
 (* ---------- schedules ---------- *)
 Definition all_enabled (s : st) : list nat :=
-  (if enabled s 0 then [0%nat] else []) ++ (if enabled s 1 then [1%nat] else []).
+  (if enabled s 0 then [0%nat] else []) ++ (if enabled s 1 then [1%nat] else []) ++ (if enabled s 2 then [2%nat] else []).
 
 Fixpoint run_sched (c : cfg) (fuel : nat) (s : st) (sched : list Z) (tr : list (nat * Z)) : st * list (nat * Z) :=
   match fuel with
@@ -285,23 +363,47 @@ Fixpoint find_op (h : Z) (ops : list (list Z)) : option (list Z) :=
 
 Definition dec_ad (z : Z) : option adapter :=
   match z with 0 => Some ACbAwait | 1 => Some AMkProm | 2 => Some ADiscard | 3 => Some AConv | 4 => Some ACallFn | _ => None end.
-Definition dec_k (k d : Z) : option rkind :=
-  match k with 0 => Some (KVal d) | 1 => Some (KExc d) | 2 => Some KDrop | _ => None end.
+(* a future<void> carries no datum: the value is the unit, written 0 *)
+Definition dec_k (isvoid : bool) (k d : Z) : option rkind :=
+  match k with 0 => Some (KVal (if isvoid then 0 else d)) | 1 => Some (KExc d) | 2 => Some KDrop | _ => None end.
 Definition dec_bool (z : Z) : option bool := match z with 0 => Some false | 1 => Some true | _ => None end.
-Definition dec_mode (z : Z) : option nat :=
-  match z with 0 => Some 0%nat | 1 => Some 1%nat | 2 => Some 2%nat | 3 => Some 3%nat | _ => None end.
+Definition dec_nat4 (z : Z) : option nat :=
+  match z with 0 => Some 0%nat | 1 => Some 1%nat | 2 => Some 2%nat | 3 => Some 3%nat | 4 => Some 4%nat | _ => None end.
+Definition dec_mode (z : Z) : option nat := match z with 4 => None | _ => dec_nat4 z end.
 
-Definition decode (ops : list (list Z)) : option cfg :=
+(* op 3: converter behaviour [ckind cdatum] or [ckind cdatum spec]; spec selects the future_conv specialisation
+   (0 member function, 1 free function, 2 free function with context, 3 member function that is handed the promise;
+   a void source has only 0 and 3).  All specialisations have the same hook points and the same effect
+   (future_conv.h:56-159), so the model does not distinguish them. *)
+Definition dec_conv (isvoid : bool) (ops : list (list Z)) : option (nat * Z) :=
+  match find_op 3 ops with
+  | None => Some (0%nat, 0)
+  | Some [ck; cd] => match dec_bool ck with Some b => Some (if b then 1%nat else 0%nat, cd) | None => None end
+  | Some [ck; cd; sp] =>
+      match dec_nat4 ck, dec_mode sp with
+      | Some b, Some n =>
+          if isvoid && (Nat.eqb n 1 || Nat.eqb n 2) then None
+          else if Nat.leb 2 b && negb (Nat.eqb n 3) then None     (* only a converter that is handed the promise can do 2-4 *)
+          else Some (b, cd)
+      | _, _ => None
+      end
+  | Some _ => None
+  end.
+
+(* op 5: competing resolver *)
+Definition dec_k2 (isvoid : bool) (ops : list (list Z)) : option (option rkind) :=
+  match find_op 5 ops with
+  | None => Some None
+  | Some [k; d] => match dec_k isvoid k d with Some r => Some (Some r) | None => None end
+  | Some _ => None
+  end.
+
+Definition decode (isvoid : bool) (ops : list (list Z)) : option cfg :=
   match find_op 1 ops, find_op 2 ops with
   | Some [a; m; s], Some [k; d] =>
-      match dec_ad a, dec_mode m, dec_bool s, dec_k k d with
-      | Some a', Some m', Some s', Some k' =>
-          match find_op 3 ops with
-          | None => Some (mkCfg a' m' s' k' false 0)
-          | Some [ck; cd] => match dec_bool ck with Some b => Some (mkCfg a' m' s' k' b cd) | None => None end
-          | Some _ => None
-          end
-      | _, _, _, _ => None
+      match dec_ad a, dec_mode m, dec_nat4 s, dec_k isvoid k d, dec_conv isvoid ops, dec_k2 isvoid ops with
+      | Some a', Some m', Some s', Some k', Some (b, cd), Some k2 => Some (mkCfg a' m' s' k' k2 b cd)
+      | _, _, _, _, _, _ => None
       end
   | _, _ => None
   end.
@@ -316,24 +418,36 @@ Definition flag_ok (ops : list (list Z)) : bool :=
   | Some _ => false
   end.
 
-Definition decode_valid (ops : list (list Z)) : option cfg :=
-  match decode ops with Some c => if valid c && flag_ok ops then Some c else None | None => None end.
+Definition decode_valid (isvoid : bool) (ops : list (list Z)) : option cfg :=
+  match decode isvoid ops with Some c => if valid c && flag_ok ops then Some c else None | None => None end.
 
 Definition decode_sched (l : list Z) : list Z := match l with 9 :: r => r | _ => [] end.
 
 Definition okind (o : outcome) : list Z :=
   match o with ONone => [0; 0] | OVal v => [1; v] | OExc e => [2; e] | OCanc => [3; 0] end.
 
-(* helper blocks counted as (heap news/deletes, storage allocs/deallocs) *)
-Definition split4 (c : cfg) (al fr : nat) : list Z :=
-  if c_stor c then [0; 0; Z.of_nat al; Z.of_nat fr] else [Z.of_nat al; Z.of_nat fr; 0; 0].
+(* helper blocks as the four counters (heap news, heap deletes, storage allocs, storage deallocs) while the scenario runs:
+   reusable_storage(_mtsafe) takes its block from the heap on first use and keeps it when the frame is released *)
+Definition split_ev (c : cfg) (al fr : nat) : list Z :=
+  match c_stor c with
+  | 0%nat => [Z.of_nat al; Z.of_nat fr; 0; 0]
+  | 1%nat | 3%nat => [0; 0; Z.of_nat al; Z.of_nat fr]
+  | _ => [Z.of_nat al; 0; 0; 0]
+  end.
+(* ... and after the storage object itself has been destroyed *)
+Definition split_fin (c : cfg) (al fr : nat) : list Z :=
+  match c_stor c with
+  | 0%nat => [Z.of_nat al; Z.of_nat fr; 0; 0]
+  | 1%nat | 3%nat => [0; 0; Z.of_nat al; Z.of_nat fr]
+  | _ => [Z.of_nat al; Z.of_nat al; 0; 0]
+  end.
 
 Definition ev_line (c : cfg) (seq : bool) (e : nat * ev) : list Z :=
   let t := if seq then 0 else Z.of_nat (fst e) in
   match snd e with
-  | ECb o al fr => 30 :: t :: okind o ++ split4 c al fr
-  | ECbRet al fr => 31 :: t :: split4 c al fr
-  | EFun al fr => 34 :: t :: split4 c al fr
+  | ECb o al fr => 30 :: t :: okind o ++ split_ev c al fr
+  | ECbRet al fr => 31 :: t :: split_ev c al fr
+  | EFun al fr => 34 :: t :: split_ev c al fr
   | ESd => [35; t]
   | EConv src r => 32 :: t :: src :: okind r
   | EODeliv o => 33 :: t :: okind o
@@ -342,18 +456,27 @@ Definition ev_line (c : cfg) (seq : bool) (e : nat * ev) : list Z :=
 Definition is_cb (e : nat * ev) : bool := match snd e with ECb _ _ _ => true | _ => false end.
 
 Definition stuck_list (s : st) : list Z :=
-  (match th0 s with [] => [] | _ => [0] end) ++ (match th1 s with [] => [] | _ => [1] end).
+  (match th0 s with [] => [] | _ => [0] end) ++ (match th1 s with [] => [] | _ => [1] end)
+  ++ (match th2 s with [] => [] | _ => [2] end).
 
+Definition retz (r : option bool) : Z := match r with None => -1 | Some b => b2z b end.
+
+(* the summary lines: 40 counters + live callback objects + live payload instances; 43 the two trailer-tagged
+   storages (first: never used; second: the one handed to the adapter), size/owner mismatches, mtsafe busy flag;
+   42 outer future; 44 what the resolvers' calls returned; 50 number of callback entries; 41 blocks the case lost *)
 Definition final_lines (c : cfg) (s : st) : list (list Z) :=
-  [ 40 :: (match split4 c (allocs s) (frees s) with
-           | [n; d; sa; sd] => [n; d; sa; sd]
-           | l => l
-           end) ++ [0; 0];
+  [ 40 :: split_fin c (allocs s) (frees s) ++ [0; 0];
+    (match c_stor c with
+     | 3%nat => [43; 0; 0; Z.of_nat (allocs s); Z.of_nat (frees s); 0; 0]
+     | _ => [43; 0; 0; 0; 0; 0; 0]
+     end);
     (match oslot s with SReady => 42 :: 1 :: okind (opayload s) | _ => [42; 0; 0; 0] end);
-    [50; zlen (filter is_cb (log s)); 0] ].
+    [44; retz (ret1 s); retz (ret2 s)];
+    [50; zlen (filter is_cb (log s)); 0];
+    [41; Z.of_nat (allocs s) - Z.of_nat (frees s)] ].
 
-Definition adapt_run (seq : bool) (ops : list (list Z)) : list (list Z) :=
-  match decode_valid ops with
+Definition adapt_run (seq isvoid : bool) (ops : list (list Z)) : list (list Z) :=
+  match decode_valid isvoid ops with
   | None => [[-1]]
   | Some c =>
       let sched := if seq then [] else flat_map decode_sched ops in
@@ -370,31 +493,49 @@ Definition list_eqb (a b : list Z) : bool :=
   Nat.eqb (length a) (length b) && forallb (fun p => Z.eqb (fst p) (snd p)) (combine a b).
 
 Definition headz (l : list Z) : Z := match l with x :: _ => x | [] => -100 end.
-Definition lines_of (h : Z) (obs : list (list Z)) : list (list Z) := filter (fun l => Z.eqb (headz l) h) obs.
 Definition is_event_line (l : list Z) : bool :=
   let h := headz l in Z.eqb h 30 || Z.eqb h 31 || Z.eqb h 34 || Z.eqb h 35 || Z.eqb h 32 || Z.eqb h 33 || Z.eqb h 36.
+Definition is_final_line (l : list Z) : bool :=
+  let h := headz l in Z.eqb h 40 || Z.eqb h 43 || Z.eqb h 42 || Z.eqb h 44 || Z.eqb h 50 || Z.eqb h 41.
 (* drop the step number (position 1) of an event line *)
 Definition strip (l : list Z) : list Z := match l with h :: _ :: r => h :: r | _ => l end.
 
-(* the event lines the property allows, in order, without step numbers *)
-Definition expected_events (c : cfg) : list (list Z) :=
-  let o := out_of (c_k c) in
-  let hb := if has_helper (c_ad c) then 1%nat else 0%nat in
+Definition hbn (c : cfg) : nat := if has_helper (c_ad c) then 1%nat else 0%nat.
+
+(* the event lines the property allows when the resolution delivered outcome o, in order, without step numbers:
+   exactly one callback with exactly that outcome while the helper block is allocated and nothing has been released;
+   then the callback object dies, then the block goes back to the storage it came from *)
+Definition expected_events (c : cfg) (o : outcome) : list (list Z) :=
   match c_ad c with
   | ADiscard => []
-  | ACallFn => [30 :: okind o ++ split4 c 0 0; 31 :: split4 c 0 0]
+  | ACallFn => [30 :: okind o ++ split_ev c 0 0; 31 :: split_ev c 0 0]
   | AConv =>
       (match o with OVal v => [32 :: v :: okind (conv_result c o)] | _ => [] end)
       ++ [33 :: okind (conv_result c o)]
-  | _ => [30 :: okind o ++ split4 c hb 0; 31 :: split4 c hb 0; 34 :: split4 c hb 0]
-         ++ (if c_stor c then [[35]] else [])
+  | _ => [30 :: okind o ++ split_ev c (hbn c) 0; 31 :: split_ev c (hbn c) 0; 34 :: split_ev c (hbn c) 0]
+         ++ (if has_sd (c_stor c) then [[35]] else [])
   end.
 
-Definition expected_final (c : cfg) : list (list Z) :=
-  let hb := if has_helper (c_ad c) then 1%nat else 0%nat in
-  [ 40 :: split4 c hb hb ++ [0; 0];
-    (if is_conv c then 42 :: 1 :: okind (conv_result c (out_of (c_k c))) else [42; 0; 0; 0]);
-    [50; if has_cb (c_ad c) then 1 else 0; 0] ].
+(* what the resolvers' calls must have returned: exactly one `true` among the calls that were made *)
+Definition prim_calls (c : cfg) : bool :=
+  (is_mode c 2 || is_mode c 3) && match c_k c, c_k2 c with KDrop, None => false | _, _ => true end.
+
+Definition rets_ok (c : cfg) (r1 r2 : Z) : bool :=
+  match c_k2 c with
+  | None => Z.eqb r2 (-1) && Z.eqb r1 (if prim_calls c then 1 else -1)
+  | Some _ => (Z.eqb r1 1 && Z.eqb r2 0) || (Z.eqb r1 0 && Z.eqb r2 1)
+  end.
+
+Definition expected_final (c : cfg) (o : outcome) (r1 r2 : Z) : list (list Z) :=
+  [ 40 :: split_fin c (hbn c) (hbn c) ++ [0; 0];
+    (match c_stor c with
+     | 3%nat => [43; 0; 0; Z.of_nat (hbn c); Z.of_nat (hbn c); 0; 0]
+     | _ => [43; 0; 0; 0; 0; 0; 0]
+     end);
+    (if is_conv c then 42 :: 1 :: okind (conv_result c o) else [42; 0; 0; 0]);
+    [44; r1; r2];
+    [50; if has_cb (c_ad c) then 1 else 0; 0];
+    [41; 0] ].
 
 Fixpoint lists_eqb (a b : list (list Z)) : bool :=
   match a, b with
@@ -411,14 +552,28 @@ Fixpoint steps_mono (prev : Z) (l : list (list Z)) : bool :=
   | _ :: r => false
   end.
 
-Definition adapt_oracle (seq : bool) (ops obs : list (list Z)) : bool :=
-  match decode_valid ops with
+Fixpoint find_line (h : Z) (obs : list (list Z)) : option (list Z) :=
+  match obs with
+  | [] => None
+  | l :: t => if Z.eqb (headz l) h then Some l else find_line h t
+  end.
+
+(* The observed trace satisfies C18: the outcome that had to be delivered is the one of the resolver whose call
+   returned true (line 44; the declared one when there is no competitor); everything else is fixed by the property. *)
+Definition adapt_oracle (seq isvoid : bool) (ops obs : list (list Z)) : bool :=
+  match decode_valid isvoid ops with
   | None => lists_eqb obs [[-1]]
   | Some c =>
-      let evs := filter is_event_line obs in
-      let fin := filter (fun l => let h := headz l in Z.eqb h 40 || Z.eqb h 42 || Z.eqb h 50) obs in
-      lists_eqb (map strip evs) (expected_events c)
-      && steps_mono 0 evs
-      && lists_eqb fin (expected_final c)
-      && negb (existsb (fun l => Z.eqb (headz l) 777) obs)
+      match find_line 44 obs with
+      | Some [_; r1; r2] =>
+          let o := out_of (kind_of c (if Z.eqb r2 1 then 2%nat else 1%nat)) in
+          let evs := filter is_event_line obs in
+          let fin := filter is_final_line obs in
+          rets_ok c r1 r2
+          && lists_eqb (map strip evs) (expected_events c o)
+          && steps_mono 0 evs
+          && lists_eqb fin (expected_final c o r1 r2)
+          && negb (existsb (fun l => Z.eqb (headz l) 777) obs)
+      | _ => false
+      end
   end.
